@@ -264,3 +264,81 @@ func ZZ_C05_TRAILER() {
 		zz.Assert("at-most-one-line", lines <= 1)
 	}
 }
+
+// ZZ_C05_GEN: every exported Set*/Add* method of RequestHeader, ResponseHeader, Cookie and
+// Trailer that takes strings or byte slices - the dispatch table (zzGen*) is generated from the
+// method sets in /repo's current source on every run, so nothing has to be listed by hand. One
+// text parameter is symbolic, the others hold harmless values; the serialised block must consist
+// of well-formed lines with token names, and have no more lines than the same call with a
+// harmless value.
+func ZZ_C05_GEN() {
+	kind := zz.Choose("type", 4)
+	var entries []zzGenEntry
+	switch kind {
+	case 0:
+		entries = zzGenRequestHeader
+	case 1:
+		entries = zzGenResponseHeader
+	case 2:
+		entries = zzGenCookie
+	case 3:
+		entries = zzGenTrailer
+	}
+	ep := zz.Choose("entry", len(entries))
+	texts := entries[ep].texts
+	pos := zz.Choose("symbolicParam", texts)
+	val := zz.Bytes("val", zz.Range("vn", 0, zz.Param("V", 3)))
+	if texts >= 2 && pos == 0 {
+		zz.Assume(len(val) > 0) // a field name is not empty (as in the hand-written harnesses)
+	}
+	mk := func(sym []byte) [][]byte {
+		a := [][]byte{[]byte("Xa"), []byte("x"), []byte("y")}[:texts]
+		if texts == 1 {
+			a = [][]byte{[]byte("x")}
+		}
+		if sym != nil {
+			a[pos] = sym
+		}
+		return a
+	}
+	ser := func(args [][]byte) []byte {
+		switch kind {
+		case 0:
+			var h RequestHeader
+			h.SetRequestURI("/")
+			zzGenRequestHeaderCall(&h, ep, args)
+			return h.Header()
+		case 1:
+			var h ResponseHeader
+			h.SetNoDefaultDate(true)
+			zzGenResponseHeaderCall(&h, ep, args)
+			return h.Header()
+		case 2:
+			var c Cookie
+			c.SetKey("k")
+			c.SetValue("v")
+			zzGenCookieCall(&c, ep, args)
+			var h ResponseHeader
+			h.SetNoDefaultDate(true)
+			h.SetCookie(&c)
+			return h.Header()
+		}
+		var t Trailer
+		zzGenTrailerCall(&t, ep, args)
+		// (a trailer section has no start line: one is prepended for the line-name reader)
+		return append([]byte("T\r\n"), t.Header()...)
+	}
+	baseLines, baseOK := zzStrictLines(ser(mk(nil)))
+	zz.Assume(baseOK)
+	out := ser(mk(val))
+	zz.Observe("out", out)
+	lines, ok := zzStrictLines(out)
+	zz.Cover("reached-assert", true)
+	zz.Assert("well-formed-lines", ok)
+	if ok {
+		if !entries[ep].list {
+			zz.Assert("no-extra-line", lines <= baseLines)
+		}
+		zz.Assert("line-names-are-tokens", zzLineNamesOK(out))
+	}
+}
